@@ -22,6 +22,17 @@ impl<Item, Err, O: Observer<Item, Err>> Observer<Item, Err>
   fn is_finished(&self) -> bool { false }
 }
 
+/// C03.S5: reports finished although its downstream is alive (a hot source would skip it at its terminal)
+pub struct AlwaysFinishedObserver<O>(O);
+impl<Item, Err, O: Observer<Item, Err>> Observer<Item, Err>
+  for AlwaysFinishedObserver<O>
+{
+  fn next(&mut self, value: Item) { self.0.next(value) }
+  fn error(self, err: Err) { self.0.error(err) }
+  fn complete(self) { self.0.complete() }
+  fn is_finished(&self) -> bool { true }
+}
+
 /// answers `false` when its slot is empty
 pub struct HalfFinishedObserver<O>(Option<O>);
 impl<Item, Err, O: Observer<Item, Err>> Observer<Item, Err>
